@@ -449,7 +449,7 @@ func (e *env) cid(abstract string) string {
 }
 
 func connectPacket(shape string, cid string, uf bool, user string, pf bool, pass string, will bool) *mw.Packet {
-	ver := verByte(strings.TrimSuffix(strings.TrimSuffix(shape, "amd"), "am"))
+	ver := verByte(strings.TrimSuffix(strings.TrimSuffix(strings.TrimSuffix(shape, "am0"), "amd"), "am"))
 	p := mw.Connect(ver, cid, true, 0)
 	if uf {
 		p.HasUsername, p.Username = true, user
@@ -460,6 +460,8 @@ func connectPacket(shape string, cid string, uf bool, user string, pf bool, pass
 	switch shape {
 	case "v5am":
 		p.Props = &mw.Props{AuthMethod: mw.Str("SCRAM-SHA-1")}
+	case "v5am0":
+		p.Props = &mw.Props{AuthMethod: mw.Str("")} // the property is present, its value is the empty string
 	case "v5amd":
 		p.Props = &mw.Props{AuthMethod: mw.Str("SCRAM-SHA-1"), AuthData: []byte("n,,n=user,r=fyko+d2lbbFgONRv9qkxdawL"), HasAuthData: true}
 	}
@@ -685,7 +687,7 @@ func (e *env) judge(op Op, o outcome, where string) {
 			} else if probe {
 				e.div("c19:"+where+":stored-account-rejected:pwfile="+meta.Mode,
 					fmt.Sprintf("probe CONNECT %s/%s rejected (0x%02x), the specification's accounts are %v", op.Ua, op.Pa, o.Code, e.acc), o)
-			} else if op.Shape == "v5am" || op.Shape == "v5amd" {
+			} else if op.Shape == "v5am" || op.Shape == "v5amd" || op.Shape == "v5am0" {
 				e.resultDiverged = true
 				e.div("c19:valid-credentials-rejected-when-authentication-method-present",
 					fmt.Sprintf("v5 CONNECT with stored user + matching password and an Authentication Method property rejected with 0x%02x (%s)", o.Code, shape), o)
